@@ -2,7 +2,10 @@
 
 package atree
 
-import "errors"
+import (
+	"errors"
+	"fmt"
+)
 
 // C15 / C03 / C04 / C14: the real PersistentSlabStorage over a ledger double.
 // One inductive step of every storage API call from any coherent
@@ -269,4 +272,137 @@ func vhStorageStep(ids []SlabID) {
 		vhAssert(st.HasUnsavedChanges(a) == want, "has-unsaved-changes per owner")
 	}
 	vhReach("storage-step-done")
+}
+
+// vLedger: a ledger double (registers by owner and key) with per-call faults.
+type vLedger struct {
+	regs    map[string][]byte
+	keys    []string
+	next    map[string]uint64
+	failAt  int
+	calls   int
+}
+
+func (l *vLedger) tick() error {
+	l.calls++
+	if l.failAt != 0 && l.calls == l.failAt {
+		return fmt.Errorf("injected ledger failure")
+	}
+	return nil
+}
+func (l *vLedger) GetValue(owner, key []byte) ([]byte, error) {
+	if err := l.tick(); err != nil {
+		return nil, err
+	}
+	return l.regs[string(owner)+"|"+string(key)], nil
+}
+func (l *vLedger) SetValue(owner, key, value []byte) error {
+	if err := l.tick(); err != nil {
+		return err
+	}
+	k := string(owner) + "|" + string(key)
+	l.keys = append(l.keys, string(key))
+	if len(value) == 0 {
+		delete(l.regs, k)
+	} else {
+		l.regs[k] = value
+	}
+	return nil
+}
+func (l *vLedger) ValueExists(owner, key []byte) (bool, error) {
+	_, ok := l.regs[string(owner)+"|"+string(key)]
+	return ok, nil
+}
+func (l *vLedger) AllocateSlabIndex(owner []byte) (SlabIndex, error) {
+	if err := l.tick(); err != nil {
+		return SlabIndex{}, err
+	}
+	l.next[string(owner)]++
+	var idx SlabIndex
+	n := l.next[string(owner)]
+	for i := 0; i < 8; i++ {
+		idx[7-i] = byte(n >> (8 * uint(i)))
+	}
+	return idx, nil
+}
+
+// The ledger adapter (LedgerBaseStorage): a register written under an
+// identifier is read back under that identifier and no other (identifiers that
+// differ in any byte of owner or index use different registers), removal makes
+// it absent, every key it uses is recognised as a slab key, generated
+// identifiers carry the owner, and a ledger failure is an external error.
+// Histories of 2→3 operations over identifiers chosen from a set whose members
+// differ in single bytes; register contents symbolic.
+//
+//vh:prop C15 C03
+//vh:param ops 2 3
+func VH_C15_LedgerBaseStorage() {
+	led := &vLedger{regs: map[string][]byte{}, next: map[string]uint64{}}
+	bs := NewLedgerBaseStorage(led)
+	ids := []SlabID{
+		{address: Address{0, 0, 0, 0, 0, 0, 0, 1}, index: SlabIndex{0, 0, 0, 0, 0, 0, 0, 1}},
+		{address: Address{0, 0, 0, 0, 0, 0, 0, 1}, index: SlabIndex{0, 0, 0, 0, 0, 0, 1, 0}},
+		{address: Address{0, 0, 0, 0, 0, 0, 0, 1}, index: SlabIndex{1, 0, 0, 0, 0, 0, 0, 1}},
+		{address: Address{0, 0, 0, 0, 0, 0, 0, 2}, index: SlabIndex{0, 0, 0, 0, 0, 0, 0, 1}},
+		{address: Address{1, 0, 0, 0, 0, 0, 0, 1}, index: SlabIndex{0, 0, 0, 0, 0, 0, 0, 1}},
+	}
+	model := map[int][]byte{}
+	nops := vhParam("ops", 2)
+	if vhChoose("fault", 2) == 1 {
+		led.failAt = 1 + vhChoose("failat", nops)
+	}
+	for op := 0; op < nops; op++ {
+		i := vhChoose("id", len(ids))
+		before := led.calls
+		var err error
+		switch vhChoose("op", 3) {
+		case 0:
+			data := []byte{vhU8("d"), vhU8("d")}
+			err = bs.Store(ids[i], data)
+			if err == nil {
+				model[i] = data
+			}
+		case 1:
+			err = bs.Remove(ids[i])
+			if err == nil {
+				delete(model, i)
+			}
+		case 2:
+			id, gerr := bs.GenerateSlabID(ids[i].address)
+			err = gerr
+			if gerr == nil {
+				vhAssert(id.address == ids[i].address, "generated identifier carries the owner")
+				vhAssert(id.index != SlabIndex{}, "generated index is not the undefined one")
+			}
+		}
+		failed := led.failAt != 0 && before < led.failAt && led.calls >= led.failAt
+		if failed {
+			vhAssert(err != nil, "ledger failure surfaces")
+			vhAssert(vhIsExternal(err), "ledger failure is an external error")
+			led.failAt = 0
+		} else {
+			vhAssert(err == nil, "ledger call succeeds")
+		}
+	}
+	// read everything back
+	for i, id := range ids {
+		got, found, err := bs.Retrieve(id)
+		vhAssert(err == nil, "retrieve")
+		want, ok := model[i]
+		vhAssert(found == ok, "found exactly the stored identifiers")
+		if ok && found {
+			vhAssert(len(got) == len(want), "register length")
+			if len(got) == len(want) {
+				same := true
+				for k := range got {
+					same = vhAll(same, got[k] == want[k])
+				}
+				vhAssert(same, "register content")
+			}
+		}
+	}
+	for _, k := range led.keys {
+		vhAssert(LedgerKeyIsSlabKey(k), "every key used is recognised as a slab key")
+	}
+	vhReach("ledger-adapter-done")
 }
